@@ -95,6 +95,8 @@ def cases(tier: str, seed: int) -> list[dict]:
                 out.append({"load": load, "sim": sim, "et": et, "dim": dim, "form": ["const", "array", "callable"][(k + r) % 3],
                             "sel": ["exact", "stray", "partial"][(k // 2 + r) % 3]})
                 k += 1
+                if load in ("line", "surf", "volume") and (k + r) % 2 == 1:
+                    out.append({"load": load, "sim": sim, "et": et, "dim": dim, "form": ["const", "array", "callable"][(k + r) % 3], "sel": "dup"})
                 if load in ("line", "surf") and (k + r) % 2 == 0:
                     out.append({"load": load, "sim": sim, "et": et, "dim": dim, "form": ["const", "array", "callable"][(k + r) % 3], "sel": "bulk"})
         for et in gm.ET_1D:
@@ -296,6 +298,9 @@ def run_case(case: dict, ctx: Ctx) -> None:
         extra = np.setdiff1d(np.setdiff1d(used, nodes), in_ldim)
         sel_nodes = np.concatenate([nodes, extra])
         ctx.event("bulk-selection-larger-than-a-boundary-group" if any(len(sel_nodes) >= g.Nn for g in mesh.Get_list_groupElem(ldim)) else "bulk-selection-small")
+    elif sel == "dup":
+        # a selection put together from several pieces (two edges sharing a corner, ...): some nodes are listed more than once
+        sel_nodes = np.concatenate([nodes, rng.choice(nodes, max(1, len(nodes) // 3), replace=False), nodes[:1]])
     elif sel == "partial" and load in ("line", "surf") and dim == 2:
         pass  # whole edge is the smallest exactly integrable region here; partial selections are covered by 'stray'
 
